@@ -241,6 +241,21 @@ func init() {
 				}
 				return
 			}
+			var hp struct {
+				H      bool `json:"histogram_stress"`
+				Cached bool `json:"cached"`
+				Dur    bool `json:"durations"`
+			}
+			if json.Unmarshal(ctx.Replay, &hp) == nil && hp.H {
+				ctx.Case(hp, "", "histogram-bucket-counts-overlapping-passes", "")
+				for k := 0; k < 60; k++ {
+					if f := c03Stress(uint64(k), hp.Cached, hp.Dur); f != "" {
+						ctx.Fail("deliveries_add_up_to_increments", "histogram bucket counts: "+f, hp, nil)
+						return
+					}
+				}
+				return
+			}
 			var rp struct {
 				CtrYields bool `json:"ctr_yields"`
 			}
@@ -333,6 +348,18 @@ func init() {
 			ctx.Res.Histogram["uncontrolled-concurrent-passes"]++
 		}
 		ctx.Res.Extra["stress_rounds_failed"] = bad
+		// "histogram bucket sample counts use the same mechanism and are covered too": bursts of samples
+		// against three goroutines running report passes; after every burst each reporter completes two
+		// more passes and the per-bucket counts delivered must equal the samples recorded (stream of C03)
+		for k := 0; k < ctx.N(6, 120); k++ {
+			cs := map[string]interface{}{"histogram_stress": true, "cached": k%2 == 1, "durations": k%4 >= 2}
+			f := c03Stress(ctx.R.U64(), k%2 == 1, k%4 >= 2)
+			ctx.Case(cs, "", "histogram-bucket-counts-overlapping-passes", "")
+			if f != "" {
+				ctx.Fail("deliveries_add_up_to_increments", "histogram bucket counts: "+f, cs, nil)
+				break
+			}
+		}
 		// "a report triggered by re-requesting a closed scope": registry cycles (obtain, record, Close,
 		// obtain again) against report passes, with the yield points inside counter.value taking part,
 		// so that the re-request's report and a pass overlap inside one counter; the re-request's report
